@@ -156,6 +156,99 @@ def pressure_function_rules(chk, sol):
         pass
 
 
+def residual_discipline(chk, sol):
+    """N8: in solve() a residual variable always holds the pressure function evaluated at its iterate:
+    every definition of fX is f(..., X) itself (or a copy made together with the copy of the iterate), and
+    no branch reads fX after X changed without fX being recomputed. This is what makes the termination
+    tests of the Newton/Brent iteration tests on the true residual."""
+    E = EX + "::"
+    solve = sol.func("solve")
+    g = C.CFG(solve)
+    # definitions
+    defs = []      # (var key, rhs ast, node)
+    for node in g.nodes:
+        if node.kind == "decl":
+            for d in node.ast["d"]:
+                if d.get("init") is not None:
+                    defs.append((("local", d["id"], d["n"]), d["init"], node, d))
+        elif node.kind == "stmt" and node.ast.get("k") == "Bin" and node.ast["op"] in ("=", "-=", "+=", "*=", "/="):
+            kk = C.ref_key(node.ast["a"])
+            if kk and kk[0] == "local":
+                defs.append((kk, node.ast["b"] if node.ast["op"] == "=" else node.ast, node, node.ast))
+    pair = {}      # residual var key -> iterate var key
+    for kk, rhs, node, ast in defs:
+        r = C.strip_casts(rhs)
+        if C.is_call(r, fn=E + "f"):
+            it = C.ref_key(r["a"][-1])
+            if it and it[0] == "local":
+                pair.setdefault(kk, it)
+    if len(pair) < 2:
+        raise AnalysisBroken("solve(): fewer than two (iterate, residual) variable pairs found")
+    n = 0
+    inv = {v: k for k, v in pair.items()}
+    for kk, rhs, node, ast in defs:
+        if kk not in pair:
+            continue
+        r = C.strip_casts(rhs)
+        n += 1
+        okk = False
+        why = "is defined as %s" % C.pretty(r)[:80]
+        if C.is_call(r, fn=E + "f") and C.ref_key(r["a"][-1]) == pair[kk]:
+            okk = True
+        elif r.get("k") == "Ref" and C.ref_key(r) in pair:
+            # copy fX = fY: legal only right after X = Y
+            src = C.ref_key(r)
+            preds = g.preds()[node.id]
+            okk = False
+            for _, pid in preds:
+                pn = g.nodes[pid]
+                if pn.kind == "stmt" and pn.ast.get("k") == "Bin" and pn.ast["op"] == "=" and \
+                        C.ref_key(pn.ast["a"]) == pair[kk] and C.ref_key(pn.ast["b"]) == pair[src]:
+                    okk = True
+            why = "is copied from %s without the matching copy of the iterate" % src[2]
+        chk.require(okk, "N8", "solve(): residual %s always holds f(%s)" % (kk[2], pair[kk][2]),
+                    where(ast if "l" in ast else node.ast, solve),
+                    "%s %s: a termination test on it is no longer a test on the pressure equation, so the "
+                    "returned star pressure need not satisfy it" % (kk[2], why),
+                    function=solve["full"], construct="residual %s definition" % kk[2])
+    # staleness: after the iterate changes, its residual is recomputed before any branch reads it
+    def writes(node):
+        out = set()
+        if node.kind == "decl":
+            for d in node.ast["d"]:
+                if d.get("init") is not None:
+                    out.add(("local", d["id"], d["n"]))
+        elif node.kind == "stmt" and node.ast.get("k") == "Bin" and node.ast["op"] in ("=", "-=", "+=", "*=", "/="):
+            kk = C.ref_key(node.ast["a"])
+            if kk:
+                out.add(kk)
+        return out
+
+    def tr(node, st):
+        stale = set(st)
+        w = writes(node)
+        for kk in w:
+            if kk in inv:
+                stale.add(inv[kk])
+            if kk in pair:
+                stale.discard(kk)
+        return [(None, frozenset(stale))]
+    ex = C.explore(g, frozenset(), tr)
+    for node in g.nodes:
+        if node.kind != "branch":
+            continue
+        reads = {C.ref_key(x) for x in C.walk(node.ast) if x.get("k") == "Ref"}
+        for kk in pair:
+            if kk in reads:
+                n += 1
+                bad = [st for st in ex.at.get(node.id, ()) if kk in st]
+                chk.require(not bad, "N8", "solve(): test on %s at line %s sees the residual of the current %s"
+                            % (kk[2], node.line(), pair[kk][2]), where(node.ast, solve),
+                            "%s is read after %s changed and before it was recomputed" % (kk[2], pair[kk][2]),
+                            function=solve["full"], construct="stale residual %s" % kk[2])
+    chk.floor("N8", n, 8)
+
+
 def run(chk, prog):
     chk.explanation = (
         "Formulas of the exact solver extracted as decision trees (forward substitution of its loop-free "
@@ -172,6 +265,7 @@ def run(chk, prog):
     chk.analysed(unit="umbrella")
     sol = Solver(u, EX)
     pressure_function_rules(chk, sol)
+    residual_discipline(chk, sol)
     total = 0
     for name, inl in (("sample_right_state", ("sample_right_shock_wave", "sample_right_rarefaction_wave")),
                       ("sample_left_state", ("sample_left_shock_wave", "sample_left_rarefaction_wave")),
